@@ -1,6 +1,7 @@
 // copyright 2017 Kaz Wesley
 
 #![no_std]
+#![allow(unexpected_cfgs)] // cfg(cryptocorrosion_verif): verification hooks
 
 extern crate block_buffer;
 pub extern crate digest;
@@ -191,6 +192,18 @@ macro_rules! define_hasher {
                 fish.encrypt_block(x.as_byte_array_mut());
                 state.x = x ^ block;
                 state.t.1 &= !T1_FLAG_FIRST;
+            }
+        }
+
+        #[cfg(cryptocorrosion_verif)]
+        impl<N> $name<N>
+        where
+            N: Unsigned + ArrayLength<u8> + NonZero + Default,
+        {
+            /// Verification hook: overwrite the chaining value (as bytes) and the tweak words (the block buffer is left as is).
+            pub fn verif_set_state(&mut self, x: &GenericArray<u8, $state_bytes>, t0: u64, t1: u64) {
+                self.state.x = Block::from_byte_array(x);
+                self.state.t = (t0, t1);
             }
         }
 
